@@ -134,7 +134,7 @@ class FnSplicer:
     def splice(self):
         rf, it, spec = self.rf, self.it, self.spec
         known = {'result', 'requires', 'ensures', 'decreases', 'loops', 'proofs', 'closures', 'props', 'note',
-                 'unroll_fn_array', 'opens_invariants', 'no_unwind', 'external_body', 'returns', 'mode_attr', 'assumed', 'slice_matches', 'retain', 'take_while_count', 'proved_in'}
+                 'unroll_fn_array', 'opens_invariants', 'no_unwind', 'external_body', 'returns', 'mode_attr', 'assumed', 'slice_matches', 'retain', 'take_while_count', 'proved_in', 'rev_find'}
         bad = set(spec) - known
         if bad:
             raise ExtractError(f'unknown spec keys {bad}')
@@ -199,6 +199,8 @@ class FnSplicer:
             self._r9(dict(spec['retain']))
         if spec.get('take_while_count'):
             self._r7(dict(spec['take_while_count']))
+        if spec.get('rev_find'):
+            self._r11(spec['rev_find'])
         # --- proof / ghost insertions
         for p in spec.get('proofs', []):
             self._splice_proof(p, loops)
@@ -337,6 +339,41 @@ class FnSplicer:
             self.ed.replace(kw.start, rf.ct(obrace).end, new_head)
             self.ed.insert(rf.ct(cbrace).end, ' }', 1)
             self.desugared.append({'rule': 'R8', 'loop': n, 'before': before, 'after': new_head + ' .. } }'})
+            return
+        if d == 'R10':
+            # for LABEL in E.split(|C| PRED) { BODY }   (E a plain identifier naming a slice; BODY without break/continue)  =>
+            # { let mut __s: usize = 0; loop { let mut __e: usize = __s;
+            #     loop { if __e >= E.len() { break; } let C = &E[__e]; if PRED { break; } __e += 1; }
+            #     let LABEL = &E[__s..__e]; BODY if __e >= E.len() { break; } __s = __e + 1; } }
+            # -- the definition of slice::split: the maximal sub-slices between the elements that satisfy PRED, in order,
+            # including the (possibly empty) piece after the last separator. PRED and BODY are left untouched.
+            kw = rf.ct(kwci)
+            if kw.text != 'for' or rf.ct(kwci + 1).kind != 'ident' or rf.ct(kwci + 2).text != 'in':
+                raise ExtractError(f'{self._where()}: R10 needs `for label in e.split(|c| ..)`')
+            LABEL = rf.ct(kwci + 1).text
+            k = kwci + 3
+            if rf.ct(k).kind != 'ident' or [rf.ct(k + j).text for j in range(1, 5)] != ['.', 'split', '(', '|'] \
+                    or rf.ct(k + 5).kind != 'ident' or rf.ct(k + 6).text != '|':
+                raise ExtractError(f'{self._where()}: R10 needs `for label in e.split(|c| ..)`')
+            E = rf.ct(k).text; C = rf.ct(k + 5).text
+            op = k + 3; cp = rf.match(op)
+            if cp + 1 != obrace:
+                raise ExtractError(f'{self._where()}: R10: tokens between split(..) and the loop body')
+            PRED = rf.spaced(k + 7, cp).strip()
+            for j in range(obrace + 1, cbrace):
+                if rf.ct(j).kind == 'ident' and rf.ct(j).text in ('break', 'continue'):
+                    raise ExtractError(f'{self._where()}: R10: loop body contains break/continue')
+            if rf.ct(cbrace - 1).text not in (';', '}'):
+                raise ExtractError(f'{self._where()}: R10: loop body ends in an expression')
+            before = rf.spaced(kwci, obrace + 1)
+            scan = (f'let mut __e: usize = __s; loop\ninvariant __s <= __e <= {E}@.len(),\ndecreases {E}@.len() - __e,\n'
+                    f'{{ if __e >= {E}.len() {{ break; }} let {C} = &{E}[__e]; if {PRED} {{ break; }} __e += 1; }}')
+            new_head = f'{{ let mut __s: usize = 0; loop\n{clauses}{{ {scan} let {LABEL} = &{E}[__s..__e];'
+            self.ed.replace(kw.start, rf.ct(obrace).end, new_head)
+            self.ed.insert(rf.ct(cbrace).start, f' if __e >= {E}.len() {{ break; }} __s = __e + 1; ', 1)
+            self.ed.insert(rf.ct(cbrace).end, ' }', 1)
+            self.desugared.append({'rule': 'R10', 'loop': n, 'before': ' '.join(before.split()),
+                                   'after': f'{{ let mut __s: usize = 0; loop {{ let mut __e: usize = __s; loop {{ if __e >= {E}.len() {{ break; }} let {C} = &{E}[__e]; if {PRED} {{ break; }} __e += 1; }} let {LABEL} = &{E}[__s..__e]; .. if __e >= {E}.len() {{ break; }} __s = __e + 1; }} }}'})
             return
         if d:
             raise ExtractError(f'unknown desugaring {d}')
@@ -511,6 +548,41 @@ class FnSplicer:
             ci += 1
         if found != 1:
             raise ExtractError(f'{self._where()}: R7 needs exactly one `x.iter().take_while(|c| ..).count()` (found {found})')
+
+    def _r11(self, cfg):
+        """R11: `E.iter().enumerate().rev().find(|(I, C)| PRED)` (E a plain identifier naming a slice; I, C identifiers or `_`) =>
+        `{ let mut __j: usize = E.len(); let mut __hit = None; loop { if __j == 0 { break; } __j -= 1; let I = &__j; let C = &&E[__j];
+           if PRED { __hit = Some((__j, &E[__j])); break; } } __hit }`
+        -- the definition of enumerate + rev + find on slice::Iter (an ExactSizeIterator): the last (index, element) pair
+        whose element satisfies PRED (the closure parameter is a `&(usize, &T)`). PRED is left untouched."""
+        rf, it = self.rf, self.it
+        ci = it.body[0] + 1; end = it.body[1]; found = 0
+        want = ['.', 'iter', '(', ')', '.', 'enumerate', '(', ')', '.', 'rev', '(', ')', '.', 'find', '(', '|', '(']
+        while ci < end:
+            if rf.ct(ci).kind == 'ident' and rf.ct(ci - 1).text != '.' and [rf.ct(ci + k).text for k in range(1, len(want) + 1)] == want:
+                E = rf.ct(ci).text
+                op = ci + 15; cp = rf.match(op)
+                tp = ci + 17; tc = rf.match(tp)
+                inner = [rf.ct(k).text for k in range(tp + 1, tc)]
+                if len(inner) != 3 or inner[1] != ',' or rf.ct(tc + 1).text != '|':
+                    raise ExtractError(f'{self._where()}: R11 needs a closure `|(i, c)| ..`')
+                I, C = inner[0], inner[2]
+                PRED = rf.spaced(tc + 2, cp).strip()
+                bi = '' if I == '_' else f'let {I} = &__j; '
+                bc = '' if C == '_' else f'let {C} = &&{E}[__j]; '
+                before = rf.spaced(ci, cp + 1)
+                cl = f'invariant __j <= {E}@.len(), __hit matches Some(__h) ==> __h.0 < {E}@.len(),\ndecreases __j,\n'
+                after = (f'{{ let mut __j: usize = {E}.len(); let mut __hit: Option<(usize, &{cfg["elem"]})> = None; loop\n{cl}{{ if __j == 0 {{ break; }} __j -= 1; {bi}{bc}'
+                         f'if {PRED} {{ __hit = Some((__j, &{E}[__j])); break; }} }} __hit }}')
+                self.clauses += 3
+                self.ed.replace(rf.ct(ci).start, rf.ct(cp).end, after)
+                self.desugared.append({'rule': 'R11', 'before': ' '.join(before.split()), 'after': ' '.join(after.replace(cl, '').split())})
+                found += 1
+                ci = cp + 1
+                continue
+            ci += 1
+        if found != 1:
+            raise ExtractError(f'{self._where()}: R11 needs exactly one `x.iter().enumerate().rev().find(|(i, c)| ..)` (found {found})')
 
     def _splice_proof(self, p, loops):
         rf, it = self.rf, self.it
